@@ -57,6 +57,8 @@ def _deco(seed, i, rot, heavy):
             ("ipropns", f"m{i}", [f"one{i}"]),
             ("tag", "#", "123"), ("tag", "%", "456"), ("tag", "@", "7"), ("tag", "+", "1000"),
             ("link", f"20{20 + i}"),  # a page whose name is made of digits is still a page
+            # a one-letter target; `[^X]` (a ticked local checklist link) is the only link zorg ignores
+            [("rlink", "X"), ("link", "X"), ("glink", "X"), ("link", "x")][i % 4],
         ]
     return ws
 
@@ -91,6 +93,8 @@ def build_page(seed, levels, mask, rot, heavy):
                                   ("link", f"olink{j}"), ("prop", kn, f"own{j}"),
                                   # the very tag and link the NEXT section header carries (if decorated)
                                   ("tag", "#@%+"[(j + 1 + rot) % 4], f"{tn}{j + 1}"), ("link", f"{ln}{j + 1}")])
+            if j % 4 == 1:
+                item.words.append(("link", "X"))  # a one-letter page of its own
             if j % 4 == 3:
                 # bullet properties, and the item's very last word is a quoted word
                 item.cont = [("  * ", [("bprop", f"bp{j}", ["done", "she", "said"])]),
